@@ -499,6 +499,29 @@ impl Rasn {
                 assignment!(self, &ty.as_str(), self.value_to_tokens(&tld.value, None)?),
                 self.config.no_std_compliant_bindings
             ),
+            // `v Uu ::= w` where `Uu ::= Tt` and `w Tt ::= ..`: the delegate type of the
+            // governing reference wraps the referenced value
+            ASN1Value::LinkedElsewhereDefinedValue { can_be_const, .. } => {
+                let referenced = self.value_to_tokens(&tld.value, None)?;
+                if *can_be_const {
+                    call_template!(
+                        self,
+                        primitive_value_template,
+                        tld,
+                        self.to_rust_title_case(&ty.as_str()),
+                        assignment!(self, &ty.as_str(), referenced)
+                    )
+                } else {
+                    call_template!(
+                        self,
+                        lazy_static_value_template,
+                        tld,
+                        self.to_rust_title_case(&ty.as_str()),
+                        assignment!(self, &ty.as_str(), quote!((*#referenced).clone())),
+                        self.config.no_std_compliant_bindings
+                    )
+                }
+            }
             _ => Ok(TokenStream::new()),
         }
     }
